@@ -256,8 +256,8 @@ FLOORS["C05"] = {"quick": [
 FLOORS["C05"]["thorough"] = FLOORS["C05"]["quick"]
 
 PLANS["C13"] = {
-    "rule": "the same logical resize / alpha operation is executed through plain typed images (reference) and through a random compiled "
-            "container pair (10 source kinds x 7 destination kinds, typed and dynamic entry points) at a random placement (parent margins "
+    "rule": "the same logical resize / alpha operation / sRGB mapping / component conversion is executed through plain images (reference) and through a random compiled "
+            "container pair (13 source kinds incl. mutable cropped views in the source role and a user-defined view, 8 destination kinds, typed and dynamic entry points) at a random placement (parent margins "
             "0..3 on every side, spare rows, partial tail row, nested crops, buffers ending at the last pixel); destination pixels must be "
             "bit-identical; threads step: the container pair inside rayon pools of 2/3/4/8 threads (bands are made by splitting the views) "
             "against the plain pair in a 1-thread pool; non-trivial = every case; distinct = distinct descriptor",
@@ -266,7 +266,7 @@ PLANS["C13"] = {
     "thorough": [step("rel", "firv-views", 16000000, timeout=7200), step("asan", "firv-views", 3000000, timeout=7200), step("rel+rayon", "firv-views", 4000000, sub="threads", timeout=7200)],
 }
 FLOORS["C13"] = {"quick": [
-    ("every compiled container pair and >= 20 alpha paths used", lambda o: len(o["sets"]["container_pairs"]) >= 24 and len(o["sets"]["alpha_paths"]) >= 20),
+    ("every compiled container pair, >= 20 alpha paths and all 12 mapping/conversion paths used", lambda o: len(o["sets"]["container_pairs"]) >= 24 and len(o["sets"]["alpha_paths"]) >= 20 and len(o["sets"]["map_change_paths"]) >= 12),
 ]}
 FLOORS["C13"]["thorough"] = FLOORS["C13"]["quick"]
 
